@@ -16,6 +16,7 @@ import (
 	"github.com/buildbarn/bb-storage/pkg/blobstore/slicing"
 	"github.com/buildbarn/bb-storage/pkg/digest"
 	"github.com/buildbarn/bb-storage/pkg/verifshim/vsched"
+	"github.com/buildbarn/bb-storage/pkg/verifshim/vsync"
 	"google.golang.org/grpc/codes"
 	"google.golang.org/grpc/status"
 	"google.golang.org/protobuf/proto"
@@ -61,6 +62,9 @@ type PutSpec struct {
 	Chunks   [][]byte // delivered chunks (concatenation may differ from the object's content to provoke mismatches)
 	FinalErr error    // instead of EOF
 	Gate     bool     // every source read is a scheduling point
+	// CloneSibling != 0: the store receives one half of a stream clone of the upload buffer (as a mirroring or
+	// replicating front end hands it out); the other half is released (1) or consumed (2) by a thread of its own.
+	CloneSibling int
 }
 
 // Put uploads through the store with a reader-backed CAS buffer (or proto buffer for AC). It returns the error and the source.
@@ -74,6 +78,22 @@ func (s *Store) Put(d digest.Digest, spec PutSpec) (error, *sim.Source) {
 		b = buffer.NewProtoBufferFromReader(&remoteexecution.ActionResult{}, sim.ReaderView{S: src}, buffer.UserProvided)
 	} else {
 		b = buffer.NewCASBufferFromReader(d, sim.ReaderView{S: src}, buffer.UserProvided)
+	}
+	if spec.CloneSibling != 0 {
+		b1, b2 := b.CloneStream()
+		var wg vsync.WaitGroup
+		wg.Add(1)
+		vsched.GoNamed("upload-sibling", false, func() {
+			defer wg.Done()
+			if spec.CloneSibling == 1 {
+				b2.Discard()
+			} else {
+				b2.IntoWriter(io.Discard)
+			}
+		})
+		err := s.BA.Put(context.Background(), d, b1)
+		wg.Wait()
+		return err, src
 	}
 	return s.BA.Put(context.Background(), d, b), src
 }
